@@ -230,6 +230,10 @@ def opMerges (o c : Char) : Bool := builtinOpRe [o, c]
 /-- `-` followed by a digit where a signed number may start: the sign of a numeral -/
 def signGlues (o p c : Char) : Bool := o == '-' && canStartSignedNumberAfter p && isDig c
 
+/-- `-.` where a signed number may start: the next rune decides between `-.5` and the symbol `-`
+(LexerMinusDot, repo fix C12-05) -/
+def dotGlues (o p c : Char) : Bool := o == '-' && canStartSignedNumberAfter p && c == '.'
+
 theorem neg_atom_iff (c : Char) : (floatRe ['-', c] || decimalRe ['-', c]) = isDig c := by
   have h1 : floatRe ['-', c] = false := by
     simp only [floatRe, dropMinus]
@@ -250,11 +254,12 @@ theorem neg_atom_iff (c : Char) : (floatRe ['-', c] || decimalRe ['-', c]) = isD
 theorem stepBuiltin_eq (s : LexCore) (c : Char) :
     stepBuiltin s c =
       (if signGlues s.prevrune s.preBuiltinRune c then .ok { s with state := .normal, buffer := s.buffer ++ [s.prevrune, c] }
+       else if dotGlues s.prevrune s.preBuiltinRune c then .ok { s with state := .minusDot }
        else if opMerges s.prevrune c then
          .ok (appendToken { s with state := .normal } ⟨.symbol,
            if [s.prevrune, c] == "&&".toList then "and".toList else if [s.prevrune, c] == "||".toList then "or".toList else [s.prevrune, c]⟩)
        else stepNormal (appendToken { s with state := .normal } ⟨.symbol, [s.prevrune]⟩) c) := by
-  unfold stepBuiltin signGlues opMerges
+  unfold stepBuiltin signGlues dotGlues opMerges
   by_cases hm : s.prevrune = '-'
   · simp only [hm, beq_self_eq_true, Bool.true_and, neg_atom_iff]
   · have : (s.prevrune == '-') = false := by simpa using hm
@@ -274,7 +279,7 @@ theorem opMerges_not_digit : ∀ o ∈ ['+', '-', '*', '<', '>', '=', '!', '&', 
   rw [he'] at h
   simpa using h
 
-theorem lexP_op2 (o p c : Char) (T : List Token) (hm : opMerges o c = true) (hd : isDig c = false) :
+theorem lexP_op2 (o p c : Char) (T : List Token) (hm : opMerges o c = true) (hd : isDig c = false) (hdot : c ≠ '.') :
     LexP (.op1 o p) T o [c] (.norm []) (T ++ [op2Tok o c]) c := by
   apply LexP.step1
   intro s hsp
@@ -284,14 +289,15 @@ theorem lexP_op2 (o p c : Char) (T : List Token) (hm : opMerges o c = true) (hd 
   · rw [step_def, stepMode_builtin _ _ hst', stepBuiltin_eq]
     have h1 : signGlues (pushRing s c).prevrune (pushRing s c).preBuiltinRune c = false := by simp [signGlues, hd]
     have h2 : opMerges (pushRing s c).prevrune c = true := hm
-    simp only [h1, h2, Bool.false_eq_true, ↓reduceIte]
+    have h3 : dotGlues (pushRing s c).prevrune (pushRing s c).preBuiltinRune c = false := by simp [dotGlues, hdot]
+    simp only [h1, h2, h3, Bool.false_eq_true, ↓reduceIte]
     rfl
   · show s.tokens ++ _ = _; rw [hsp.tokens]
 
 /-- **settling a one-rune operator**: a rune that neither completes a two-rune operator nor makes
 the `-` a sign is read exactly as if the operator had been emitted before it -/
 theorem step_settle_op1 (s : LexCore) (o p c : Char) (T : List Token) (hsp : InPend s (.op1 o p) T o)
-    (hm : opMerges o c = false) (hg : signGlues o p c = false) :
+    (hm : opMerges o c = false) (hg : signGlues o p c = false) (hd : dotGlues o p c = false) :
     ∃ s0, InPend s0 (.norm []) (T ++ [⟨.symbol, [o]⟩]) o ∧ step s c = step s0 c := by
   obtain ⟨hst, hbuf, rfl, rfl⟩ := hsp.holds
   refine ⟨appendToken { s with state := .normal } ⟨.symbol, [s.prevrune]⟩, ⟨⟨hsp.ring.len, hsp.ring.lt⟩, hsp.last, ?_, rfl, hbuf⟩, ?_⟩
@@ -299,9 +305,46 @@ theorem step_settle_op1 (s : LexCore) (o p c : Char) (T : List Token) (hsp : InP
   · have hst' : (pushRing s c).state = .builtinOperator := hst
     have h1 : signGlues (pushRing s c).prevrune (pushRing s c).preBuiltinRune c = false := hg
     have h2 : opMerges (pushRing s c).prevrune c = false := hm
+    have h3 : dotGlues (pushRing s c).prevrune (pushRing s c).preBuiltinRune c = false := hd
     rw [step_def, stepMode_builtin _ _ hst', stepBuiltin_eq]
-    simp only [h1, h2, Bool.false_eq_true, ↓reduceIte]
+    simp only [h1, h2, h3, Bool.false_eq_true, ↓reduceIte]
     rw [step_def, stepMode_normal _ _ (by rfl)]
+    rfl
+
+theorem stepMode_minusDot (s : LexCore) (r : Char) (h : s.state = .minusDot) : stepMode s r = stepMinusDot s r := by
+  simp only [stepMode, h]
+
+/-- **settling `-.`** (LexerMinusDot): after `-` where a signed number may start, a `.` followed by a
+rune that is no digit is read exactly as if the `-` had been emitted before the dot -/
+theorem feed_settle_minusDot (s : LexCore) (p x : Char) (T : List Token) (hsp : InPend s (.op1 '-' p) T '-')
+    (hp : canStartSignedNumberAfter p = true) (hx : isDig x = false) :
+    ∃ s0, InPend s0 (.norm []) (T ++ [⟨.symbol, ['-']⟩]) '-' ∧ feed (.ok s) ['.', x] = feed (.ok s0) ['.', x] := by
+  obtain ⟨hst, hbuf, hprev, hpre⟩ := hsp.holds
+  refine ⟨appendToken { s with state := .normal } ⟨.symbol, ['-']⟩, ⟨⟨hsp.ring.len, hsp.ring.lt⟩, hsp.last, ?_, rfl, hbuf⟩, ?_⟩
+  · show s.tokens ++ _ = _; rw [hsp.tokens]
+  · -- left: `-` pending, then `.`, then x
+    have hst' : (pushRing s '.').state = .builtinOperator := hst
+    have h1 : signGlues (pushRing s '.').prevrune (pushRing s '.').preBuiltinRune '.' = false := by simp [signGlues, isDig]
+    have h2 : dotGlues (pushRing s '.').prevrune (pushRing s '.').preBuiltinRune '.' = true := by
+      show dotGlues s.prevrune s.preBuiltinRune '.' = true
+      rw [hprev, hpre]; simp [dotGlues, hp]
+    have e1 : step s '.' = .ok { pushRing s '.' with state := .minusDot } := by
+      rw [step_def, stepMode_builtin _ _ hst', stepBuiltin_eq]
+      simp only [h1, h2, Bool.false_eq_true, ↓reduceIte]
+    have hxd : ('0' ≤ x && x ≤ '9') = false := hx
+    have e2 : step { pushRing s '.' with state := .minusDot } x =
+        stepNormal { appendToken { pushRing (pushRing s '.') x with state := .normal } ⟨.symbol, ['-']⟩ with
+          buffer := (pushRing (pushRing s '.') x).buffer ++ ['.'] } x := by
+      rw [step_def, stepMode_minusDot _ _ (by rfl)]
+      simp only [stepMinusDot, hxd, Bool.false_eq_true, ↓reduceIte]
+      rfl
+    -- right: the `-` already emitted, then `.` (a plain rune), then x
+    have f1 : step (appendToken { s with state := .normal } ⟨.symbol, ['-']⟩) '.' =
+        .ok { pushRing (appendToken { s with state := .normal } ⟨.symbol, ['-']⟩) '.' with
+          buffer := (pushRing (appendToken { s with state := .normal } ⟨.symbol, ['-']⟩) '.').buffer ++ ['.'] } := by
+      rw [step_def, stepMode_normal _ _ (by rfl), stepNormal_plain _ _ (by decide)]
+      rfl
+    rw [feed_ok_cons, e1, feed_ok_cons, e2, feed_ok_cons, f1, feed_ok_cons, step_def, stepMode_normal _ _ (by rfl)]
     rfl
 
 /-- **settling `/`**: a rune that starts neither a comment nor `/=` is read as if the atom before
@@ -339,7 +382,10 @@ theorem step_settle_slash (s : LexCore) (b : List Char) (c : Char) (T : List Tok
       rw [g1]; simp [signGlues]
     have g3 : opMerges (pushRing (settleBuf { s with state := .builtinOperator, prevrune := '/' }) c).prevrune c = false := by
       rw [g1]; exact hm
-    simp only [g2, g3, Bool.false_eq_true, ↓reduceIte]
+    have g5 : dotGlues (pushRing (settleBuf { s with state := .builtinOperator, prevrune := '/' }) c).prevrune
+        (pushRing (settleBuf { s with state := .builtinOperator, prevrune := '/' }) c).preBuiltinRune c = false := by
+      rw [g1]; simp [dotGlues]
+    simp only [g2, g3, g5, Bool.false_eq_true, ↓reduceIte]
     have g4 : (⟨.symbol, [(pushRing (settleBuf { s with state := .builtinOperator, prevrune := '/' }) c).prevrune]⟩ : Token) =
         ⟨.symbol, ['/']⟩ := by rw [g1]
     rw [g4, step_def, stepMode_normal _ _ (by rfl)]
